@@ -74,7 +74,7 @@ def deque_calls(f, name):
 
 
 def wait_calls(f):
-    return [bb for bb, t in f.calls() if call_is(t, CV_WAIT, CV_WAIT_T)]
+    return [bb for bb, t in f.calls() if call_is(t, CV_WAIT, CV_WAIT_T, *CV_WAIT_WHILE)]
 
 
 def notify_calls(f):
@@ -153,7 +153,7 @@ class QueueModel:
             m = re.search(DEQUE_RX, n)
             if m:
                 return "deque:" + m.group(1)
-            if call_is(t2, CV_WAIT, CV_WAIT_T):
+            if call_is(t2, CV_WAIT, CV_WAIT_T, *CV_WAIT_WHILE):
                 return "wait"
             return None
         return absint.explore(f, t["target"], st, stop=stop)
@@ -218,9 +218,18 @@ def rule_wait_protocol(ctx, rule):
         for i, w in enumerate(ws):
             n += 1
             key = "%s|wait%d" % (r.id, i)
-            ctx.ob(rule, key + "|in-loop", "the condvar wait sits in a loop", f.in_loop(w), f.loc(w))
-            ctx.ob(rule, key + "|predicate-first", "the queue is examined before the thread goes to sleep",
-                   any(f.dominates(p, w, unwind=False) for p in pops), f.loc(w))
+            if call_is(f.term(w), *CV_WAIT_WHILE):
+                # std's wait_while evaluates the predicate before sleeping and after every wake-up, in a loop of its own: what has to hold
+                # is that the predicate looks at the queue
+                po = f.origin(f.term(w)["args"][2]) if len(f.term(w)["args"]) > 2 else ("unknown",)
+                pf = ctx.facts.fns.get(po[1]) if po[0] == "agg" else None
+                looks = pf is not None and any(re.search(r"VecDeque::<T(, A)?>::(is_empty|len|front|iter|contains)$", call_name(t2)) for b2, t2 in pf.calls())
+                ctx.ob(rule, key + "|in-loop", "the wait is std's predicate loop (wait_while), and its predicate examines the queue", looks, f.loc(w))
+                ctx.ob(rule, key + "|predicate-first", "the queue is examined before the thread goes to sleep", looks, f.loc(w))
+            else:
+                ctx.ob(rule, key + "|in-loop", "the condvar wait sits in a loop", f.in_loop(w), f.loc(w))
+                ctx.ob(rule, key + "|predicate-first", "the queue is examined before the thread goes to sleep",
+                       any(f.dominates(p, w, unwind=False) for p in pops), f.loc(w))
             o = f.origin(f.term(w)["args"][0])
             ctx.ob(rule, key + "|own-condvar", "the wait is on the queue's own condvar", m.cv_field in origin_fields(o), f.loc(w))
             # path-wise: a path that returns without looking at the queue after its last wake-up must have established that this very
